@@ -125,8 +125,19 @@ def rare_thr(rng, wl):
     return rng.choice([1, 1, 2, 3])
 
 
+def _pipe_post(rng, spec):
+    wl, cli = spec['workload'], spec['cli']
+    if 'numeric' in wl.get('kinds', []) and rng.random() < 0.4:
+        # a typed source: column names / float types come from dataset_desc.json
+        wl['source'] = 'ob-csv'
+        wl['float_cols'] = [h for h, k in zip(wl['header'], wl['kinds']) if k == 'numeric' and h != wl['label']]
+    if 'multi' in wl.get('kinds', []) and rng.random() < 0.5:
+        cli['explode_multivalue_features'] = wl['header'][wl['kinds'].index('multi')]
+
+
 PIPE_PROFILE = {
     'oracles': ['C13'],
+    'post': _pipe_post,
     'heuristics': ['MI-numba-randomized'],
     'minibatch': [2, 3, 5, 8, 20],
     'batches': [1, 2, 3, 5],
